@@ -3,30 +3,30 @@ CONSTANTS
   MaxStmts = 2
   MaxDepth = 3
   MaxUnits = 1
-  MaxVar = 1
-  UnitKinds <- SubOnly
+  MaxVar = 30
+  UnitKinds <- SweepUnits
   ConKinds <- Empty
   SpecKinds <- Empty
-  SimpleV <- StrSplitS
-  DeclV <- StrSplitDecl
-  UseV <- Set1
+  SimpleV <- Set1
+  DeclV <- DeclAll
+  UseV <- UseAll
   FormatV <- Set1
   CompV <- Set1
   TbindV <- Set1
   NameChoices <- Set1
-  EndForms <- Set02
+  EndForms <- Set1
   LabelStmts = FALSE
   Contains = FALSE
-  PKinds <- KCmt
+  PKinds <- KBrk
   MaxEdits = 1
   InsSet <- InsSmall
   MinEdits = 0
   Randomised = FALSE
-  DumpMod = 3
+  DumpMod = 1
   NRepl = 17
-  RichOnly = FALSE
+  RichOnly = TRUE
   NeedStruct = FALSE
-  MaxRich <- Unlimited
+  MaxRich = 1
   NCmtCls = 8
   NCppForms = 27
   NGarb = 7
